@@ -8,6 +8,7 @@ import (
 	"go/token"
 	"go/types"
 	"sort"
+	"strings"
 
 	"golang.org/x/tools/go/ssa"
 )
@@ -420,4 +421,106 @@ func (f *Frame) applyFnValue(ct *Contract, sig *types.Signature, fnv *Term, args
 		return out[0]
 	}
 	return out
+}
+
+// resolveRoleKeys: a contract keyed `pkg.Parent@Role` is the contract of the closure literal of Parent
+// that is stored into a struct field named Role (Visitor{OnRef: func...}) or passed as an argument to a
+// function or method named Role (objects.Iterate(func...)). Binding by role instead of by the closure's
+// ordinal ($1, $2, ...) keeps the contract attached when closures are added or reordered. The role must
+// identify exactly one closure of Parent; otherwise the key stays unresolved and the check reports
+// that the contract no longer binds.
+func (e *Engine) resolveRoleKeys() {
+	var keys []string
+	for k := range e.contracts.Funcs {
+		if strings.Contains(k, "@") {
+			keys = append(keys, k)
+		}
+	}
+	sort.Strings(keys)
+	for _, k := range keys {
+		at := strings.LastIndex(k, "@")
+		parent := e.fnByKey[k[:at]]
+		role := k[at+1:]
+		if parent == nil {
+			continue
+		}
+		found := map[*ssa.Function]bool{}
+		closureOf := func(v ssa.Value) *ssa.Function {
+			switch x := v.(type) {
+			case *ssa.MakeClosure:
+				if cf, ok := x.Fn.(*ssa.Function); ok && cf.Parent() == parent {
+					return cf
+				}
+			case *ssa.Function:
+				if x.Parent() == parent {
+					return x
+				}
+			case *ssa.ChangeType:
+				if mc, ok := x.X.(*ssa.MakeClosure); ok {
+					if cf, ok := mc.Fn.(*ssa.Function); ok && cf.Parent() == parent {
+						return cf
+					}
+				}
+				if cf, ok := x.X.(*ssa.Function); ok && cf.Parent() == parent {
+					return cf
+				}
+			}
+			return nil
+		}
+		for _, b := range parent.Blocks {
+			for _, in := range b.Instrs {
+				switch x := in.(type) {
+				case *ssa.Store:
+					fa, ok := x.Addr.(*ssa.FieldAddr)
+					if !ok {
+						continue
+					}
+					pt, ok := fa.X.Type().Underlying().(*types.Pointer)
+					if !ok {
+						continue
+					}
+					st, ok := pt.Elem().Underlying().(*types.Struct)
+					if !ok || st.Field(fa.Field).Name() != role {
+						continue
+					}
+					if cf := closureOf(x.Val); cf != nil {
+						found[cf] = true
+					}
+				case ssa.CallInstruction:
+					cc := x.Common()
+					name := ""
+					if cc.IsInvoke() {
+						name = cc.Method.Name()
+					} else if sc := cc.StaticCallee(); sc != nil {
+						name = sc.Name()
+						if o := sc.Origin(); o != nil {
+							name = o.Name()
+						}
+					}
+					if name != role {
+						continue
+					}
+					for _, a := range cc.Args {
+						if cf := closureOf(a); cf != nil {
+							found[cf] = true
+						}
+					}
+				}
+			}
+		}
+		if len(found) != 1 {
+			continue
+		}
+		for cf := range found {
+			ct := e.contracts.Funcs[k]
+			nk := funcKey(cf)
+			if _, taken := e.contracts.Funcs[nk]; taken {
+				continue
+			}
+			delete(e.contracts.Funcs, k)
+			ct.Key = nk
+			ct.RoleKey = k
+			e.contracts.Funcs[nk] = ct
+		}
+	}
 }
